@@ -807,6 +807,9 @@ class XlsxRowWriter(AbstractRowWriter):
                     % (len(item), self.worksheet.xls_strmax),
                     self.location,
                 )
+        if not items_to_write:
+            # Store an empty cell so the row is part of the sheet even if no further rows follow.
+            self.worksheet.write_string(row_index, 0, "")
         for item in items_to_write:
             assert item is not None
             assert not isinstance(item, bytes), "item must be a string: %r" % item
